@@ -10,7 +10,13 @@
 (* the address of a router P that never takes part: either P's address with  *)
 (* M's key ("swapped": not self-certifying) or P's genuine public identity   *)
 (* ("genuine": self-certifying, but M cannot sign for it), and signs every   *)
-(* message with its own key.  The victim keeps what it stored between        *)
+(* message with its own key - or ("recorded") presents P's genuine identity   *)
+(* and signs nothing at all: P and the victim completed a genuine handshake   *)
+(* earlier which M observed, and M puts the signatures P made THEN under the  *)
+(* messages it writes NOW (own challenge, the victim's fresh challenge echoed,*)
+(* own key share, a newer time stamp).  A signature over other bytes proves   *)
+(* nothing, however often the victim has verified it before.                  *)
+(* The victim keeps what it stored between                                    *)
 (* connections: AddRouter never overwrites a stored record, and the session  *)
 (* - the key signatures are verified with - is made from the STORED record.  *)
 (*                                                                          *)
@@ -27,7 +33,7 @@ CONSTANTS VerifyFirst,   \* TRUE: the code as it is
           MaxConns,
           KnownBefore    \* TRUE: the victim already holds P's genuine record (it has met P)
 
-Claims == {"swapped", "genuine"}
+Claims == {"swapped", "genuine", "recorded"}
 
 VARIABLES bound,       \* the key stored under P's address at the victim: "none" | "P" | "M"
           registered,  \* a link to P is registered at the victim
@@ -40,7 +46,7 @@ Init == /\ bound = IF KnownBefore THEN "P" ELSE "none"
         /\ act = [name |-> "init"]
 
 PresentedKey(cl) == IF cl = "swapped" THEN "M" ELSE "P"
-SelfCertifying(cl) == cl = "genuine"
+SelfCertifying(cl) == cl # "swapped"
 
 (* one whole connection: M's request with claim cl, signed by M *)
 Connect(cl) ==
@@ -49,7 +55,7 @@ Connect(cl) ==
   /\ LET addrOK == SelfCertifying(cl)
          \* what is stored after GetSession/AddRouter ran (first writer wins)
          stored == IF bound = "none" THEN PresentedKey(cl) ELSE bound
-         sigOK(k) == k = "M"                      \* M signs with its own key
+         sigOK(k) == cl # "recorded" /\ k = "M"  \* M signs with its own key; a recorded signature fits no new bytes
      IN IF VerifyFirst
           THEN IF ~addrOK
                  THEN /\ UNCHANGED <<bound, registered>>
